@@ -20,8 +20,44 @@ import (
 
 const zzImportPath = "github.com/plgd-dev/go-coap/v3/pkg/errors"
 
+// localHooks is set while a dependency package (outside go-coap) is rewritten: it cannot import go-coap, so the
+// scheduling helpers are local functions delegating to hook variables that the harness package sets at init.
+var localHooks bool
+
 func schedCall(name string, args ...ast.Expr) *ast.CallExpr {
+	if localHooks {
+		local := map[string]string{"ZZSchedPV": "zzSchedPV", "ZZSchedPoint": "zzSchedPoint", "ZZSchedGo": "zzSchedGo"}[name]
+		return &ast.CallExpr{Fun: ast.NewIdent(local), Args: args}
+	}
 	return &ast.CallExpr{Fun: &ast.SelectorExpr{X: ast.NewIdent("zzclock"), Sel: ast.NewIdent(name)}, Args: args}
+}
+
+func depHooksFile(pkgName string) string {
+	return "package " + pkgName + `
+
+// hooks set by the replay harness (see zz_verif_deps.go in the package under test)
+var ZZSchedPointFn func()
+var ZZSchedGoFn func(func())
+
+func zzSchedPoint() {
+	if ZZSchedPointFn != nil {
+		ZZSchedPointFn()
+	}
+}
+
+func zzSchedPV[T any](v T) T {
+	zzSchedPoint()
+	return v
+}
+
+func zzSchedGo(f func()) {
+	if ZZSchedGoFn != nil {
+		ZZSchedGoFn(f)
+		return
+	}
+	go f()
+}
+`
 }
 
 // visibleCallee reports whether a call to obj is a scheduling point in the engine.
@@ -345,9 +381,15 @@ func buildRewriteOverlay(pkgs map[string]*packages.Package, repo string, clockDi
 		if p == nil {
 			return fmt.Errorf("rewrite: package %s not loaded (add a harness entry for it)", dir)
 		}
+		isDep := !strings.HasPrefix(p.PkgPath, modulePath)
+		localHooks = isDep
+		hooksDone := false
 		for i, f := range p.Syntax {
 			path := p.CompiledGoFiles[i]
 			if strings.HasSuffix(path, "zz_verif_sym.go") || strings.HasSuffix(path, "_test.go") {
+				continue
+			}
+			if !strings.HasSuffix(path, ".go") {
 				continue
 			}
 			if strings.HasPrefix(filepath.Base(path), "zz_verif_h_") && dir != curPkg {
@@ -375,13 +417,22 @@ func buildRewriteOverlay(pkgs map[string]*packages.Package, repo string, clockDi
 			}
 			src := sb.String()
 			idx := strings.Index(src, "import (")
-			if idx >= 0 {
+			if isDep {
+				// no import needed: helpers are local
+			} else if idx >= 0 {
 				src = src[:idx+len("import (")] + "\n\tzzclock \"" + zzImportPath + "\"" + src[idx+len("import ("):]
 			} else if pk := strings.Index(src, "\nimport "); pk >= 0 {
 				src = src[:pk+1] + "import zzclock \"" + zzImportPath + "\"\n" + src[pk+1:]
 			} else {
 				nl := strings.Index(src[strings.Index(src, "package "):], "\n") + strings.Index(src, "package ")
 				src = src[:nl+1] + "\nimport zzclock \"" + zzImportPath + "\"\n" + src[nl+1:]
+			}
+			if isDep && !hooksDone {
+				// a file added to a module-cache directory is not picked up by the overlay, so the hook
+				// definitions are appended to the first rewritten file of the package
+				h := depHooksFile(p.Name)
+				src += h[strings.Index(h, "\n"):]
+				hooksDone = true
 			}
 			for _, im := range f.Imports {
 				if im.Path.Value == "\"time\"" {
@@ -400,5 +451,6 @@ func buildRewriteOverlay(pkgs map[string]*packages.Package, repo string, clockDi
 			replace[path] = out
 		}
 	}
+	localHooks = false
 	return nil
 }
